@@ -468,6 +468,8 @@ Inductive cstmt :=
 | SIf (c : cexpr) (th : cblk) (rest : celse)
 | SSwitch (v : cexpr) (cs : ccases)
 | SFor (x : bstr) (e : cexpr) (body : cblk) (hasie : bool) (ie : cblk)   (* {foreach $x in e}body[{ifempty}ie]{/foreach}; ie is BNil without {ifempty} *)
+| SForRange (x : bstr) (a1 : cexpr) (rest : list cexpr) (body : cblk) (hasie : bool) (ie : cblk)
+    (* {for $x in range(a1, rest..)}body[{ifempty}ie]{/for}: one to three arguments *)
 with cblk := BNil | BCons (s : cstmt) (r : cblk)
 with celse := ENone | EElse (b : cblk) | EElif (c : cexpr) (th : cblk) (rest : celse)
 with ccases := KNone | KDefault (b : cblk) | KCase (v : cexpr) (vs : list cexpr) (b : cblk) (rest : ccases).
@@ -482,6 +484,8 @@ Fixpoint snode (s : cstmt) : node :=
   | SSwitch v cs => NSwitch 0 (cnode v) (knodes cs)
   | SFor x e body hasie ie =>
       NFor 0 x (cnode e) (NList 0 (bnodes body)) (if hasie then Some (NList 0 (bnodes ie)) else None)
+  | SForRange x a1 rest body hasie ie =>
+      NFor 0 x (NFunc 0 jn_range (cnode a1 :: map cnode rest)) (NList 0 (bnodes body)) (if hasie then Some (NList 0 (bnodes ie)) else None)
   end
 with bnodes (b : cblk) : list node :=
   match b with BNil => [] | BCons s r => snode s :: bnodes r end
@@ -509,6 +513,7 @@ Fixpoint sdepth (s : cstmt) : nat :=
   | SIf c th rest => S (S (Nat.max (cdepth c) (Nat.max (bdepth th) (edepth rest))))
   | SSwitch v cs => S (S (Nat.max (cdepth v) (kdepth cs)))
   | SFor _ e body _ ie => S (S (Nat.max (cdepth e) (Nat.max (bdepth body) (bdepth ie))))
+  | SForRange _ a1 rest body _ ie => S (S (S (Nat.max (Nat.max (cdepth a1) (cdepths rest)) (Nat.max (bdepth body) (bdepth ie)))))
   end
 with bdepth (b : cblk) : nat :=
   match b with BNil => 0%nat | BCons s r => Nat.max (S (sdepth s)) (bdepth r) end
@@ -534,6 +539,9 @@ Inductive jstmt :=
 | JSSwitch (v : jexpr) (cs : jcases)                           (* switch (v) { [case x:]+ .. break; ... [default: .. break;] } *)
 | JSForeach (vd vlist vlen vidx : bstr) (e : jexpr) (body : jblk) (hasie : bool) (ie : jblk)
     (* var vlist = e; var vlen = vlist.length; [if (vlen > 0) {] for (var vidx = 0; vidx < vlen; vidx++) { var vd = vlist[vidx]; body } [} else { ie }] *)
+| JSForRange (vd vinit vstep vlen vidx : bstr) (ei es el : jexpr) (body : jblk) (hasie : bool) (ie : jblk)
+    (* var vinit = ei; var vstep = es; var vlen = Math.max(0, Math.ceil((el - vinit) / vstep));
+       [if (vlen > 0) {] for (var vidx = 0; vidx < vlen; vidx++) { var vd = vinit + vidx * vstep; body } [} else { ie }] *)
 with jblk := JBNil | JBCons (s : jstmt) (r : jblk)
 with jelse := JLNone | JLElse (b : jblk) | JLElif (c : jexpr) (th : jblk) (rest : jelse)
 with jcases := JKNone | JKDefault (b : jblk) | JKCase (v : jexpr) (vs : list jexpr) (b : jblk) (rest : jcases).
@@ -546,6 +554,15 @@ Definition jsc_name (v : bstr) (n : N) : bstr := v ++ t_us ++ dec_of_N n.
 (* scope.go pushForEach / pushForRange: the frame of a loop over $x whose names carry the counter n *)
 Definition loop_frame (x : bstr) (n : N) : list (bstr * bstr) :=
   aset (aset (aset (aset [] x (jsc_name x n)) jk_var x) jk_limit (jsc_name (x ++ t_limit) n)) jk_index (jsc_name (x ++ t_index) n).
+
+(* visitForRange: init, limit, increment from one to three arguments (None: an arity the generator rejects) *)
+Definition range_args {A} (zero one : A) (args : list A) : option (A * A * A) :=
+  match args with
+  | [l] => Some (zero, l, one)
+  | [i; l] => Some (i, l, one)
+  | [i; l; s] => Some (i, l, s)
+  | _ => None
+  end.
 
 (* the generator on statements: for an autoescape mode and a buffer variable, from a scope and a variable counter
    to the statement, the scope after it (a let binds) and the counter (never reset: var is function-scoped).
@@ -573,6 +590,15 @@ Fixpoint sgen (mode : N) (buf : bstr) (sc : list (list (bstr * bstr))) (n : N) (
       let '(ji, n2) := if hasie then bgen mode buf ([] :: sc) n1 ie else (JBNil, n1) in
       (JSForeach (jsc_name x (n + 1)) (jsc_name (x ++ t_list) (n + 1)) (jsc_name (x ++ t_limit) (n + 1)) (jsc_name (x ++ t_index) (n + 1))
                  (cgen sc e) jb hasie ji, (sc, n2))
+  | SForRange x a1 rest body hasie ie =>
+      let '(jb, n1) := bgen mode buf ([] :: loop_frame x (n + 1) :: sc) (n + 1) body in
+      let '(ji, n2) := if hasie then bgen mode buf ([] :: sc) n1 ie else (JBNil, n1) in
+      let '(ei, el, es) := match range_args (JENum 0) (JENum 1) (map (cgen sc) (a1 :: rest)) with
+                           | Some t => t
+                           | None => (JENull, JENull, JENull)       (* the generator reports an error: excluded by swf *)
+                           end in
+      (JSForRange (jsc_name x (n + 1)) (jsc_name (x ++ t_init) (n + 1)) (jsc_name (x ++ t_step) (n + 1)) (jsc_name (x ++ t_limit) (n + 1))
+                  (jsc_name (x ++ t_index) (n + 1)) ei es el jb hasie ji, (sc, n2))
   end
 with bgen (mode : N) (buf : bstr) (sc : list (list (bstr * bstr))) (n : N) (b : cblk) : jblk * N :=
   match b with
@@ -659,6 +685,18 @@ Fixpoint js_for (run : jenv -> outcome jenv) (item : jenv -> Z -> outcome jval) 
 Definition js_item_elem (vlist : bstr) (env : jenv) (i : Z) : outcome jval :=
   match jvget env vlist with Some l => js_index l i | None => Err je_ref end.
 
+(* vinit + i * vstep *)
+Definition js_item_lin (vinit vstep : bstr) (env : jenv) (i : Z) : outcome jval :=
+  match jvget env vinit, jvget env vstep with
+  | Some (JNum a), Some (JNum s) => m <- js_num (i * s) ;; match m with JNum mz => js_num (a + mz) | _ => OutOfModel end
+  | None, _ | _, None => Err je_ref
+  | _, _ => OutOfModel
+  end.
+(* Math.max(0, Math.ceil((l - a) / s)) on integers: the quotient is exact in the reals; ceil(d / s) = -floor(-d / s) *)
+Definition js_range_count (l a s : Z) : outcome jval :=
+  if (s =? 0)%Z then OutOfModel
+  else if small (l - a) then js_num (Z.max 0 (- ((- (l - a)) / s))) else OutOfModel.
+
 (* var is function-scoped: a block does not restore anything *)
 Fixpoint js_exec (env : jenv) (s : jstmt) : outcome jenv :=
   match s with
@@ -678,6 +716,24 @@ Fixpoint js_exec (env : jenv) (s : jstmt) : outcome jenv :=
           else js_for (fun en => jb_exec en body) (js_item_elem vlist) vd vlen vidx (length l) (jvset env2 vidx (JNum 0))
       | JUndef | JNull => Err je_type        (* .length of undefined / null *)
       | _ => OutOfModel                      (* the length of a string counts UTF-16 units; other values have none *)
+      end
+  | JSForRange vd vinit vstep vlen vidx ei es el body hasie ie =>
+      vi <- js_eval env ei ;;
+      let env1 := jvset env vinit vi in
+      vs <- js_eval env1 es ;;
+      let env2 := jvset env1 vstep vs in
+      vl <- js_eval env2 el ;;
+      match vl, jvget env2 vinit, jvget env2 vstep with
+      | JNum l, Some (JNum a), Some (JNum s) =>
+          cv <- js_range_count l a s ;;
+          match cv with
+          | JNum c =>
+              let env3 := jvset env2 vlen cv in
+              if hasie && (c <=? 0)%Z then jb_exec env3 ie
+              else js_for (fun en => jb_exec en body) (js_item_lin vinit vstep) vd vlen vidx (Z.to_nat c) (jvset env3 vidx (JNum 0))
+          | _ => OutOfModel
+          end
+      | _, _, _ => OutOfModel
       end
   end
 with jb_exec (env : jenv) (b : jblk) : outcome jenv :=
@@ -704,6 +760,12 @@ Definition scalar_string (v : value) : option bstr :=
   | VBool false => Some s_false
   | VNull => Some s_null
   | _ => None
+  end.
+(* the list range() returns: a, a + st, ... below l (st > 0); the fuel l - a suffices *)
+Fixpoint range_items (fuel : nat) (i limit step : Z) : list value :=
+  match fuel with
+  | O => []
+  | S f => if (i <? limit)%Z then VInt i :: range_items f (i + step)%Z limit step else []
   end.
 Definition cleanb (s : bstr) : bool := forallb (fun c => negb (c =? 0) && negb (c =? 34)) s.
 Definition prim_value (v : value) : bool :=
@@ -737,6 +799,13 @@ Section Sout.
         | Some t => match for_out run x env1 (i + 1)%Z r with Some t' => Some (t ++ t') | None => None end
         | None => None
         end
+    end.
+
+  (* the arguments of range(): integers; a step must be positive *)
+  Fixpoint cints (env : bstr -> option value) (es : list cexpr) : option (list Z) :=
+    match es with
+    | [] => Some []
+    | e :: r => match ceval ij env e, cints env r with Some (VInt z), Some zs => Some (z :: zs) | _, _ => None end
     end.
 
   Fixpoint sout (env : bstr -> option value) (s : cstmt) : option (bstr * (bstr -> option value)) :=
@@ -786,6 +855,29 @@ Section Sout.
                 end
               else None
           | _ => None
+          end
+        else None
+    | SForRange x a1 rest body hasie ie =>
+        if is_ident x && negb (bstr_eqb x n_ij) then
+          match cints env (a1 :: rest) with
+          | Some zs =>
+              match range_args 0%Z 1%Z zs with
+              | Some (a, l, st) =>
+                  if (0 <? st)%Z && small (l - a) then
+                    let items := range_items (Z.to_nat (Z.max 0 (l - a))) a l st in
+                    match items with
+                    | [] => if hasie then match bout env ie with Some t => Some (t, env) | None => None end else Some ([], env)
+                    | _ :: _ =>
+                        match for_out (fun en => bout en body) x
+                                      (env_set env (x ++ c_lastindex) (VInt (Z.of_nat (length items) - 1))) 0%Z items with
+                        | Some t => Some (t, env)
+                        | None => None
+                        end
+                    end
+                  else None
+              | None => None
+              end
+          | None => None
           end
         else None
     end
@@ -849,6 +941,17 @@ Fixpoint sprint (ind : nat) (s : jstmt) : list chunk :=
       ++ bprint (S ind1) body
       ++ (sp_ind ind1 ++ [CText t_rbrace] ++ [CText t_nl])
       ++ (if hasie then (sp_ind ind ++ [CText t_else_block] ++ [CText t_nl]) ++ bprint (S ind) ie ++ (sp_ind ind ++ [CText t_rbrace] ++ [CText t_nl]) else [])
+  | JSForRange vd vinit vstep vlen vidx ei es el body hasie ie =>
+      let ind1 := if hasie then S ind else ind in
+      (sp_ind ind ++ ([CText t_var; CName vinit; CText t_eq] ++ jprint ei ++ [CText t_semi]) ++ [CText t_nl])
+      ++ (sp_ind ind ++ ([CText t_var; CName vstep; CText t_eq] ++ jprint es ++ [CText t_semi]) ++ [CText t_nl])
+      ++ (sp_ind ind ++ ([CText t_var; CName vlen; CText t_count1] ++ jprint el ++ [CText t_minus; CName vinit; CText t_count2; CName vstep; CText t_count3]) ++ [CText t_nl])
+      ++ (if hasie then sp_ind ind ++ [CText t_if_open; CName vlen; CText t_gt0] ++ [CText t_nl] else [])
+      ++ (sp_ind ind1 ++ [CText t_for_open; CName vidx; CText t_eq0_semi; CName vidx; CText t_lt; CName vlen; CText t_semi_sp; CName vidx; CText t_plusplus] ++ [CText t_nl])
+      ++ (sp_ind (S ind1) ++ ([CText t_var; CName vd; CText t_eq] ++ [CName vinit; CText t_plus; CName vidx; CText t_times; CName vstep] ++ [CText t_semi]) ++ [CText t_nl])
+      ++ bprint (S ind1) body
+      ++ (sp_ind ind1 ++ [CText t_rbrace] ++ [CText t_nl])
+      ++ (if hasie then (sp_ind ind ++ [CText t_else_block] ++ [CText t_nl]) ++ bprint (S ind) ie ++ (sp_ind ind ++ [CText t_rbrace] ++ [CText t_nl]) else [])
   end
 with bprint (ind : nat) (b : jblk) : list chunk :=
   match b with JBNil => [] | JBCons s r => sprint ind s ++ bprint ind r end
@@ -879,6 +982,8 @@ Fixpoint swf (lv : list bstr) (s : cstmt) : bool :=
   | SIf c th rest => cwf lv c && bwf lv th && ewf lv rest
   | SSwitch v cs => cwf lv v && kwf lv cs
   | SFor x e body _ ie => is_ident x && cwf lv e && bwf (x :: lv) body && bwf lv ie
+  | SForRange x a1 rest body _ ie =>
+      is_ident x && (Nat.leb (length rest) 2) && cwf lv a1 && forallb (cwf lv) rest && bwf (x :: lv) body && bwf lv ie
   end
 with bwf (lv : list bstr) (b : cblk) : bool :=
   match b with BNil => true | BCons s r => swf lv s && bwf lv r end
